@@ -37,13 +37,15 @@ def correlation_names(P):
     return out
 
 
-def check_delegation(ctx, rule, only_array=False):
+def check_delegation(ctx, rule, only_array=False, only=None):
     P = ctx.P
     ci = P.cls(FLUID + "Fluid")
     opaque = correlation_names(P)
     n = 0
     for mname, callee in METHODS.items():
         if only_array and mname not in ARRAY_METHODS:
+            continue
+        if only is not None and mname not in only:
             continue
         m = ci.lookup(mname)
         if m is None:
@@ -98,7 +100,7 @@ def check_delegation(ctx, rule, only_array=False):
             at is not None and at[0] == "fn" and at[1] == callee, rule, m.qualname + ":return", m.where(),
             "the method returns the correlation's value unchanged (per element for arrays)", signature="return", value=nf.show(rv, 200),
         )
-    ctx.floor(rule, n, 6 if only_array else 7, "Fluid facade methods")
+    ctx.floor(rule, n, len(only) if only is not None else (6 if only_array else 7), "Fluid facade methods")
 
 
 def col(t, k):
@@ -202,21 +204,22 @@ def check_sutton(ctx, rule):
     f = P.func(SQ)
     it = interp(ctx)
     ctx.touch(SQ)
-    paths = it.run_function(SQ)
-    rets = [p for p in paths if p.outcome == "return"]
-    raises = [p for p in paths if p.outcome == "raise"]
-    import re as _re
+    from ..values import StrV
 
-    guard = _re.compile(r"^fluid in (tuple|set|list)\(('dry gas', 'wet gas'|'wet gas', 'dry gas')\)$")
-    okr = any(
-        p.exc == "ValueError" and not any(e.kind in ("ext_call", "opaque_call") for e in p.events) and p.decisions and not p.decisions[-1][1] and guard.match(p.decisions[-1][2])
-        for p in raises
-    )
+    # the guard, decided on concrete fluid names: the two documented ones return on every path, any other raises
+    # ValueError on every path before any arithmetic (evaluation with a literal argument, so that a tuple test, a set
+    # test and a dictionary lookup of the fluid type are all the same to the rule)
+    by_fluid = {}
+    for name in ("dry gas", "wet gas", "condensate", "dry", "Dry Gas", ""):
+        by_fluid[name] = it.run_function(SQ, args={"fluid": StrV(name)})
+    bad_accept = [n for n in ("condensate", "dry", "Dry Gas", "") if any(p.outcome != "raise" or p.exc != "ValueError" or any(e.kind in ("ext_call", "opaque_call") for e in p.events) for p in by_fluid[n])]
+    bad_reject = [n for n in ("dry gas", "wet gas") if any(p.outcome == "raise" for p in by_fluid[n])]
     ctx.check(
-        okr, "C19-d", SQ + ":unknown fluid", f.where(),
+        not bad_accept and not bad_reject, "C19-d", SQ + ":unknown fluid", f.where(),
         "ValueError is raised, before any arithmetic, exactly when the fluid type is not a member of the two-element collection {'dry gas', 'wet gas'}",
-        signature="fluid guard", raising=[(p.exc, p.decisions[-1][2] if p.decisions else "") for p in raises],
+        signature="fluid guard", wrongly_accepted=bad_accept, wrongly_rejected=bad_reject,
     )
+    rets = [(True, p) for p in by_fluid["dry gas"] if p.outcome == "return"] + [(False, p) for p in by_fluid["wet gas"] if p.outcome == "return"]
     frac = nf.fn("[]", nf.sym("non_hydrocarbon_properties"), nf.sym("'fraction'"))
 
     def zero(a):
@@ -228,11 +231,10 @@ def check_sutton(ctx, rule):
 
     g = nf.sym("specific_gravity")
     n = 0
-    for p in rets:
+    for dry, p in rets:
         v = p.value
-        dry = next((c for _k, c, d in p.decisions if "dry gas" in d and "==" in d), None)
-        if not (isinstance(v, TupV) and len(v.items) == 2) or dry is None:
-            raise AnalysisError(f"{SQ}: unexpected return shape / dryness decision")
+        if not (isinstance(v, TupV) and len(v.items) == 2):
+            raise AnalysisError(f"{SQ}: unexpected return shape")
         n += 1
         c = [nf.const_text(x) for x in HC[dry]]
         t_hc = nf.add(c[0], nf.add(nf.mul(c[1], g), nf.mul(c[2], nf.mul(g, g))))
